@@ -79,11 +79,19 @@ structure GState where
   store : Store
   deriving DecidableEq, Repr, Inhabited
 
+/-- `while len(p) > 1 and p[0] is self::node() without predicates: p = p[1:]` -/
+def stripDot : LocPath → LocPath
+  | s0 :: s1 :: rest =>
+      if s0.axis == .self && s0.preds.isEmpty && s0.test == .node then stripDot (s1 :: rest)
+      else s0 :: s1 :: rest
+  | p => p
+
 /-- the `steps` list computed at the top of `GenericStrategy.test` -/
 def gSteps (p : LocPath) (ic : Bool) : List Step :=
-  match p with
+  match (if ic then stripDot p else p) with
   | [] => []
   | s0 :: rest =>
+    let p := if ic then stripDot p else p
     if ic then
       if s0.axis == .attribute then dotSlashSlash :: p
       else ⟨.descendantOrSelf, s0.test, s0.preds⟩ :: rest
